@@ -24,6 +24,9 @@ $GO126 test -c -tags verif -overlay "$OV" -o "$B/worker.new" . || exit 2
 mv "$B/worker.new" "$B/worker"
 (cd "$REPO_ROOT/src/calcHermesBatch" && go build -o "$B/calcbatch.new" . ) || exit 2
 mv "$B/calcbatch.new" "$B/calcbatch"
+# the shipped simulator binary itself (no tag): C17 runs a slice of its nodes through the real main()
+(cd "$REPO_ROOT/src/hermes2go" && go build -o "$B/hermes2go.new" . ) || exit 2
+mv "$B/hermes2go.new" "$B/hermes2go"
 if [ "${VERIF_BUILD_RACE:-1}" = 1 ]; then
   CGO_ENABLED=1 $GO126 test -c -race -tags verif -overlay "$OV" -o "$B/worker-race.new" . || exit 2
   mv "$B/worker-race.new" "$B/worker-race"
